@@ -40,7 +40,9 @@ func Register() {
 			"token.evm_fault_fired.balance_error_before", "token.evm_fault_fired.balance_error_after",
 			"token.to_erc20_other_receiver", "token.from_erc20_other_receiver", "token.from_erc20_whole_balance",
 			"token.feeswap_ratio_one", "token.feeswap_with_dust", "token.feeswap_across_scales", "token.feeswap_minted_nothing",
-			"token.ibc_token_registered", "token.erc20_deployed"},
+			"token.ibc_token_registered", "token.erc20_deployed",
+			"C10.hook_checks", "token.hook_multi_log", "token.hook_same_receiver_twice", "token.hook_noise_logs",
+			"token.hook_refused.blocked_receiver", "token.hook_refused.malformed_receiver", "token.hook_refused.zero_amount"},
 		Rule: "a run is non-trivial when at least two accepted conversions (ERC20 either way, or fee-token swaps) were judged exactly, the committed EVM ledger was compared with the model, and either a conversion was rejected (no-trace rule exercised) or a fee-token swap was judged; distinct = different fingerprint of the executed (operation kind, outcome class) sequence",
 	})
 }
